@@ -226,6 +226,18 @@ def fixture(eng, params, prefixes_without_delim=True, warm=None):
     recs = recs + wide_recs(params.get("wide", 0))
     assume_strict(eng, recs)
     delim = get_delim(eng, params.get("symdelim", False), recs, no_delim_in_prefixes=False)
+    if warm is None and params.get("built") in ("grow", "merge", "used"):
+        warm = default_warm(eng)
+    if params.get("built") == "grow":
+        # the converter is constructed without its last record, queried, and then completed with add_record (append path)
+        if prefixes_without_delim:
+            eng.assume(And([first_occurrence(p, delim) for p in all_p(recs)]))
+        api = eng.mods.api
+        c = api.Converter([api.Record(**r.kwargs()) for r in recs[:-1]], delimiter=delim)
+        if warm is not None:
+            warm(c)
+        c.add_record(api.Record(**recs[-1].kwargs()))
+        return recs, delim, c
     if params.get("built") == "merge":
         if prefixes_without_delim:
             eng.assume(And([first_occurrence(p, delim) for p in all_p(recs)]))
@@ -246,7 +258,27 @@ def fixture(eng, params, prefixes_without_delim=True, warm=None):
         # ambiguous, e.g. prefix "-_" with delimiter "__"), which coincides for single-character delimiters.
         eng.assume(And([first_occurrence(p, delim) for p in all_p(recs)]))
     c = build(eng, recs, delim, records_as=params.get("records_as", "list"))
+    if params.get("built") == "used" and warm is not None:
+        warm(c)         # the converter has answered other queries before
     return recs, delim, c
+
+
+def default_warm(eng):
+    """Earlier use of the converter: every public query family is asked about an independent symbolic string and an
+    independent symbolic (prefix, identifier) pair.  Whatever a query remembers (memo tables keyed by strings are looked up
+    with symbolic equality, so 'the same string as later' is one of the explored cases) is in place afterwards."""
+    ws, wp, wi = eng.var("w_s"), eng.var("w_P"), eng.var("w_I")
+
+    def warm(c):
+        for f in (c.compress, c.expand, lambda x: c.parse(x, strict=False), c.standardize_uri, c.standardize_curie, c.expand_all):
+            try:
+                f(ws)
+            except ValueError:
+                pass
+        c.expand_pair_all(wp, wi)
+        c.expand_pair(wp, wi)
+        c.standardize_prefix(wp)
+    return warm
 
 
 def first_occurrence(P, d):
